@@ -161,7 +161,13 @@ def pat_str(p):
     if k == "Or":
         return " | ".join(pat_str(x) for x in p["pats"])
     if k == "Slice":
-        parts = [pat_str(x) for x in p.get("prefix", [])]
+        pre = p.get("prefix", [])
+        if pre and p.get("slice") is None and not p.get("suffix") and all(x.get("k") == "Const" and str(x.get("v", "")).endswith("_u8") for x in pre):
+            try:
+                return 'b"%s"' % bytes(int(str(x["v"]).split("_")[0]) for x in pre).decode("utf-8", "replace")
+            except ValueError:
+                pass
+        parts = [pat_str(x) for x in pre]
         if p.get("slice") is not None:
             parts.append("..")
         parts += [pat_str(x) for x in p.get("suffix", [])]
